@@ -23,9 +23,9 @@ FILE_OF = dict(fortran='fortran/xraylib_wrap.F90', pascal='pascal/xraylib_const.
 
 
 def load_findings(prop):
-    """known_findings.txt plus the proposed (not yet merged) entries of notes/proposed_findings/<prop>.txt"""
+    """entries of /verif/known_findings.txt (the only file that can suppress a violation)"""
     out = []
-    for p in (os.path.join(VERIF, 'known_findings.txt'), os.path.join(VERIF, 'notes', 'proposed_findings', prop + '.txt')):
+    for p in (os.path.join(VERIF, 'known_findings.txt'),):
         try:
             for l in open(p):
                 m = re.match(r'finding:\s+property=(C\d+)\s+key=\[([^\]]*)\]\s*(.*)', l.strip())
